@@ -60,6 +60,8 @@ type gen struct {
 	p Profile
 	// per-case context vocabulary so that clauses have a fair chance to match
 	ctxKeys []string
+	// restrict operator probes to these operators
+	forceOps []string
 }
 
 func (g *gen) mal() bool { return g.r.chance(g.p.PMalformed, 100) }
